@@ -209,6 +209,7 @@ impl Exec {
         // the store must be a consistent replay for the tip it reports
         self.check_tip_consistency("after_restart");
         self.check_proposals("after_restart");
+
         if self.sc.freezer {
             self.check_frozen("after_restart");
         }
@@ -784,7 +785,181 @@ impl Exec {
                     self.check_frozen("after_freeze");
                 }
             }
+            Op::FilterBuild => {
+                self.il.write_u64(9);
+                self.tick();
+                ckb_block_filter::filter::BlockFilter::new(self.node.shared.clone()).verif_build_filter_data();
+                self.res.faults.inc("filter_builder_pass");
+                self.ev("filter_build");
+                self.check_filters("after_filter_build");
+            }
             Op::Restart | Op::Crash { .. } => unreachable!(),
+        }
+    }
+
+    /// C19 (filters): after a builder pass every main-chain block has a filter that contains exactly
+    /// the lock/type script hashes of its outputs and spent inputs, and the filter hashes chain.
+    fn check_filters(&mut self, why: &str) {
+        use golomb_coded_set::{GCSFilterReader, GCSFilterWriter, SipHasher24Builder, M, P};
+        let shared = self.node.shared.clone();
+        let store = shared.store();
+        let snap = shared.cloned_snapshot();
+        let Some(ti) = self.w.by_hash.get(&snap.tip_hash()).cloned() else { return };
+        if !self.w.blocks[ti].chain_valid {
+            return;
+        }
+        let chain = self.w.st(ti).chain.clone();
+        match store.get_latest_built_filter_data_block_hash() {
+            Some(h) if h == snap.tip_hash() => {}
+            other => {
+                // the tip may have moved only if stages ran inside the pass: they do not
+                self.viol("C19", "filter_latest_mark_not_tip", format!("{why}: latest built filter mark is {:?}, tip is {}", other.map(|h| hex(&h)), hex(&snap.tip_hash())));
+                return;
+            }
+        }
+        let mut parent_hash = packed::Byte32::zero();
+        for (n, bi) in chain.iter().enumerate() {
+            let b = &self.w.blocks[*bi];
+            let h = b.view.hash();
+            let Some(data) = store.get_block_filter(&h) else {
+                self.viol("C19", "filter_missing", format!("{why}: main-chain block {n} has no filter after a builder pass"));
+                return;
+            };
+            // expected elements, derived from the model's chain (inputs resolved through the model's tx index)
+            let mut elems: Vec<Vec<u8>> = Vec::new();
+            let st_tx = &self.w.st(ti).txs;
+            for tx in b.view.transactions().iter() {
+                if !tx.is_cellbase() {
+                    for op in tx.input_pts_iter() {
+                        if let Some((cb, cti)) = st_tx.get(&op.tx_hash()) {
+                            let ctx = &self.w.blocks[*cb].view.transactions()[*cti];
+                            if let Some(o) = ctx.outputs().get(Into::<u32>::into(op.index()) as usize) {
+                                elems.push(o.calc_lock_hash().as_slice().to_vec());
+                                if let Some(t) = o.type_().to_opt() {
+                                    elems.push(t.calc_script_hash().as_slice().to_vec());
+                                }
+                            }
+                        }
+                    }
+                }
+                for o in tx.outputs().into_iter() {
+                    elems.push(o.calc_lock_hash().as_slice().to_vec());
+                    if let Some(t) = o.type_().to_opt() {
+                        elems.push(t.calc_script_hash().as_slice().to_vec());
+                    }
+                }
+            }
+            let raw = data.raw_data();
+            let reader = GCSFilterReader::new(SipHasher24Builder::new(0, 0), M, P);
+            for e in &elems {
+                let mut cur = std::io::Cursor::new(raw.to_vec());
+                let hit = reader.match_any(&mut cur, &mut std::iter::once(e.as_slice())).unwrap_or(false);
+                if !hit {
+                    self.viol("C19", "filter_misses_script", format!("{why}: the filter of main-chain block {n} does not match a script of its outputs / spent inputs"));
+                    return;
+                }
+            }
+            // exact content: the same set encoded again
+            let mut out = std::io::Cursor::new(Vec::new());
+            {
+                let mut wtr = GCSFilterWriter::new(&mut out, SipHasher24Builder::new(0, 0), M, P);
+                for e in &elems {
+                    wtr.add_element(e);
+                }
+                let _ = wtr.finish();
+            }
+            if out.into_inner() != raw.to_vec() {
+                self.viol("C19", "filter_content_differs", format!("{why}: the filter of main-chain block {n} is not the encoding of exactly its scripts"));
+                return;
+            }
+            // hash chain
+            let want = ckb_hash::blake2b_256([parent_hash.as_slice(), &ckb_hash::blake2b_256(raw.as_ref())[..]].concat());
+            match store.get_block_filter_hash(&h) {
+                Some(fh) if fh.as_slice() == &want[..] => parent_hash = fh,
+                other => {
+                    self.viol("C19", "filter_hash_chain_broken", format!("{why}: filter hash of main-chain block {n} is {:?}, expected blake2b(parent filter hash || blake2b(filter))", other.map(|x| hex(&x))));
+                    return;
+                }
+            }
+        }
+        self.res.probes.inc("filter_chain_checked");
+        self.res.probes.add("filters_checked", chain.len() as u64);
+    }
+
+    /// C19 (proofs): what the light-client server sends for "last block L, prove blocks N1..Nk"
+    /// (parent chain root + proof items from the stored MMR) verifies against the model's root and
+    /// leaves, and against nothing else.
+    fn check_proofs(&mut self, why: &str) {
+        use ckb_merkle_mountain_range::{leaf_index_to_mmr_size, leaf_index_to_pos};
+        use ckb_types::utilities::merkle_mountain_range::MMRProof;
+        let shared = self.node.shared.clone();
+        let snap = shared.cloned_snapshot();
+        let Some(ti) = self.w.by_hash.get(&snap.tip_hash()).cloned() else { return };
+        if !self.w.blocks[ti].chain_valid {
+            return;
+        }
+        let chain = self.w.st(ti).chain.clone();
+        let tipn = chain.len() as u64 - 1;
+        if tipn < 2 {
+            return;
+        }
+        let mut r = simcore::Rng::new(fp_bytes(snap.tip_hash().as_slice()) ^ self.res.steps);
+        for _ in 0..3 {
+            let last = r.range(1, tipn);
+            let mmr = snap.chain_root_mmr(last - 1);
+            let root = match mmr.get_root() {
+                Ok(x) => x,
+                Err(e) => {
+                    self.viol("C19", "proof_root_error", format!("{why}: {e}"));
+                    return;
+                }
+            };
+            let want_root = self.w.chain_root(&chain, last - 1);
+            if root.as_slice() != want_root.as_slice() {
+                self.viol("C19", "proof_parent_chain_root_differs", format!("{why}: parent chain root served for last block {last} differs from the naive MMR"));
+                return;
+            }
+            let k = r.urange(1, 6.min(last as usize));
+            let mut nums: BTreeSet<u64> = BTreeSet::new();
+            for _ in 0..k {
+                nums.insert(r.range(0, last - 1));
+            }
+            let pos: Vec<u64> = nums.iter().map(|n| leaf_index_to_pos(*n)).collect();
+            let items = match mmr.gen_proof(pos) {
+                Ok(p) => p.proof_items().to_owned(),
+                Err(e) => {
+                    self.viol("C19", "proof_generation_failed", format!("{why}: last {last} blocks {:?}: {e}", nums));
+                    return;
+                }
+            };
+            // the client rebuilds the proof from the items and the last block's number
+            let leaves: Vec<(u64, packed::HeaderDigest)> = nums.iter().map(|n| (leaf_index_to_pos(*n), crate::model::leaf_digest(&self.w.blocks[chain[*n as usize]].view.header()))).collect();
+            let proof = MMRProof::new(leaf_index_to_mmr_size(last - 1), items.clone());
+            if !proof.verify(want_root.clone(), leaves.clone()).unwrap_or(false) {
+                self.viol("C19", "proof_does_not_verify", format!("{why}: proof for blocks {:?} under last block {last} does not verify against the committed root", nums));
+                return;
+            }
+            // ... and against no other chain: a different header at one position, a different root
+            let victim = *nums.iter().next().unwrap();
+            let other = self.w.blocks.iter().find(|b| b.number == victim && b.idx != chain[victim as usize]).map(|b| b.view.header()).unwrap_or_else(|| self.w.blocks[chain[(victim as usize + 1).min(chain.len() - 1)]].view.header());
+            if other.hash() != self.w.blocks[chain[victim as usize]].view.hash() {
+                let mut forged = leaves.clone();
+                forged[0].1 = crate::model::leaf_digest(&other);
+                let proof = MMRProof::new(leaf_index_to_mmr_size(last - 1), items.clone());
+                if proof.verify(want_root.clone(), forged).unwrap_or(false) {
+                    self.viol("C19", "proof_verifies_foreign_header", format!("{why}: proof under last block {last} also verifies a header that is not on the main chain at height {victim}"));
+                    return;
+                }
+            }
+            if last >= 2 {
+                let other_root = self.w.chain_root(&chain, last - 2);
+                let proof = MMRProof::new(leaf_index_to_mmr_size(last - 1), items.clone());
+                if proof.verify(other_root, leaves.clone()).unwrap_or(false) {
+                    self.viol("C19", "proof_verifies_against_other_root", format!("{why}: proof under last block {last} verifies against the root of a different chain prefix"));
+                    return;
+                }
+            }
+            self.res.probes.inc("membership_proofs_checked");
         }
     }
 
@@ -964,7 +1139,13 @@ impl Exec {
             let c = format!("{class}:{why}");
             self.viol("C02", &c, d.clone());
             self.viol("C07", &c, d.clone());
-            self.viol("C08", &c, d);
+            self.viol("C08", &c, d.clone());
+            if class.starts_with("mmr_") {
+                self.viol("C19", &c, d);
+            }
+        }
+        if self.sc.prop == "C19" {
+            self.check_proofs(why);
         }
     }
 
